@@ -8,13 +8,16 @@ Import ListNotations.
 Local Open Scope Z_scope.
 
 (* Conn.Write, for every state: one datagram on the selected pair's local socket to that pair's remote
-   address (before selection: the best validated pair; none: error, nothing sent); STUN refused *)
+   address (before selection: the best validated pair; none: error, nothing sent); STUN refused.
+   [write_result pr p cc s] = the datagram [OData (socket of pr) (remote address of pr) p], the counters of
+   [wrote], result nil -- or, when the socket refuses the send ([pl_refused p], an injected fault), no
+   datagram, no counter change, result nil *)
 Theorem C07_write_path : forall p s,
   conn_write p s =
   if s_closed s then (s, [ORet RErrClosed])
   else if pl_stun p then (s, [ORet RErrStunPayload])
   else match write_target s with
-       | Some pr => (wrote pr p true s, [OData (c_h (p_loc pr)) (c_addr (p_rem pr)) p; ORet ROk])
+       | Some pr => write_result pr p true s
        | None => (s, [ORet RErrNoPairs])
        end.
 Proof. exact conn_write_spec. Qed.
@@ -34,7 +37,7 @@ Theorem C07_write_to_pair : forall id p s,
   else match pair_by_id id s with
        | None => (s, [ORet RErrPairNotFound])
        | Some pr => if p_state pr =? CandidatePairStateSucceeded
-                    then (wrote pr p false s, [OData (c_h (p_loc pr)) (c_addr (p_rem pr)) p; ORet ROk])
+                    then write_result pr p false s
                     else (s, [ORet RErrPairNotSucceeded])
        end.
 Proof. exact conn_write_to_pair_spec. Qed.
@@ -82,7 +85,7 @@ Print Assumptions C07_counters_only_by_write_and_read.
 Theorem C07_write_counts_payload_bytes : forall cfg p s,
   let '(s', outs) := step cfg s (Write p) in
   s_bytes_recv s' = s_bytes_recv s /\
-  s_bytes_sent s' = s_bytes_sent s + (if existsb (fun o => match o with ORet ROk => true | _ => false end) outs
+  s_bytes_sent s' = s_bytes_sent s + (if existsb (fun o => match o with OData _ _ _ => true | _ => false end) outs
                                        then Z.max 0 (pl_len p) else 0).
 Proof. exact write_counts_payload_bytes. Qed.
 Print Assumptions C07_write_counts_payload_bytes.
